@@ -106,7 +106,7 @@ def part(rng, b):
 	return (tuple(dict(hs).items()), c)
 
 
-TEXTS = [u'', u'plain ascii', u'caf\xe9', u'€ uro', u'\U0001f600', u'\xff\x00', u'a\x80b', u'퟿', u'line\r\nline']
+TEXTS = [u'', u'plain ascii', u'caf\xe9', u'€ uro', u'\U0001f600', u'\xff\x00', u'a\x80b', u'퟿', u'line\r\nline', u'\ufeff', u'\ufeffwith a byte order mark', u'\ufeff\ufeffx', u'x\ufeff']
 
 
 def jvalue(rng, depth=0):
@@ -153,9 +153,9 @@ def cases(rng, tier):
 		for cs in ('utf8', 'latin1', 'ascii'):
 			yield ('plain', cs, t)
 	for _ in range(n):
-		t = u''.join(chr(rng.choice((0x41, 0x7f, 0x80, 0xe9, 0xff, 0x100, 0x20ac, 0xd7ff, 0xe000, 0x1f600, 0x0a, 0x00))) for _ in range(rng.randrange(6)))
+		t = u''.join(chr(rng.choice((0x41, 0x7f, 0x80, 0xe9, 0xff, 0x100, 0x20ac, 0xd7ff, 0xe000, 0x1f600, 0x0a, 0x00, 0xfeff, 0xfffe, 0xfeff))) for _ in range(rng.randrange(6)))
 		yield ('plain', rng.choice(('utf8', 'latin1', 'ascii')), t)
-		yield ('plaindec', rng.choice(('utf8', 'latin1', 'ascii')), bytes(rng.choice((0x41, 0x80, 0xc3, 0xa9, 0xe2, 0x82, 0xac, 0xf0, 0x9f, 0xff, 0xed, 0xa0)) for _ in range(rng.randrange(6))))
+		yield ('plaindec', rng.choice(('utf8', 'latin1', 'ascii')), (rng.choice((b'', b'', b'\xef\xbb\xbf', b'\xff\xfe', b'\xef\xbb')) + bytes(rng.choice((0x41, 0x80, 0xc3, 0xa9, 0xe2, 0x82, 0xac, 0xf0, 0x9f, 0xff, 0xed, 0xa0)) for _ in range(rng.randrange(6)))))
 	for _ in range(n):
 		yield ('json', rng.choice((None, 'UTF-8', 'ISO-8859-1', 'ASCII', 'UTF-16')), json.dumps(jvalue(rng)))
 	for _ in range(n // 4):
@@ -363,6 +363,25 @@ def oracle(case):
 			ref = zlib.decompress(mid, 31 if coding == 'gzip' else 15)
 			if ref != content:
 				return {'what': 'the compressed content is not a %s stream of the content' % coding, 'case': describe(case), 'finding': None}
+		# the coded octets handed to a fresh body in every way the API offers: constructor, write() in two steps, pieces, iterator
+		from httoop import Body
+		half = len(mid) // 2
+		def written():
+			x = Body()
+			x.write(mid[:half])
+			x.write(mid[half:])
+			return x
+		for how, mk in (('constructor', lambda: Body(mid)), ('write', written), ('list', lambda: Body([mid[:half], mid[half:]])),
+				('iterator', lambda: Body(iter([mid[:half], mid[half:]]))), ('bytearray', lambda: Body(bytearray(mid)))):
+			try:
+				x = mk()
+				x.content_encoding = coding
+				x.decompress()
+				got = bytes(x)
+			except Exception as e:
+				return {'what': 'decompress of a body supplied by %s raised %s: %s' % (how, exc_name(e), e), 'case': describe(case), 'finding': None}
+			if got != content:
+				return {'what': 'decompress of a body supplied by %s returned %d octets for %d' % (how, len(got), len(content)), 'case': describe(case), 'finding': None}
 		# through the wire: composer -> state machine
 		for side in ('response', 'request'):
 			r = wire_roundtrip(side, coding, kind, pieces, chunked)
